@@ -436,8 +436,8 @@ func main() {
 			if left := minBudget - minSpent; left < per {
 				per = left
 			}
-			if *noMin {
-				per = 0
+			if *noMin || strings.HasSuffix(v.Class, "/native-divergence") {
+				per = 0 // (native map order is not replayable choice by choice)
 			}
 			t0 := time.Now()
 			min := trace
@@ -523,6 +523,17 @@ func doReplay(p Prop, path string) int {
 		}()
 	}
 	o := p.Run(c, newStats(), true)
+	if strings.HasSuffix(rf.Class, "/native-divergence") {
+		// Go's own map order cannot be dictated: repeat
+		for n := 0; n < 200 && !hasViolation(o, rf.Class, rf.Signature); n++ {
+			if rf.Trace != nil {
+				c = verifsim.NewReplay(rf.Trace)
+			} else {
+				c = chooserFor(p, rf.Base, p.Enumerate(rf.Tier), rf.CaseIndex)
+			}
+			o = p.Run(c, newStats(), true)
+		}
+	}
 	b, _ := json.MarshalIndent(map[string]interface{}{"rendering": o.Sample, "violations": o.V}, "", " ")
 	fmt.Println(string(b))
 	if rf.Class == "" {
